@@ -43,7 +43,7 @@ CHECKS = {
  "C06": {
   "level": "proof",
   "technique": "Coq proofs of minimal varints/tags/length patching and T_enc (Marshal = the reference encoder, a function of the value) + exact-bytes correspondence + fixpoint oracle",
-  "text": "Proved in Coq for all values/sizes: minimal varints for every uint64, canonical tags for every valid number, minimal length prefix for every payload length (all three patching branches), default omission; Theorem T_enc (Schema/TEnc.v): for every schema the generator model accepts and every well-typed value, Marshal of the generated program = ref_encode (the reference encoder written from the encoding document), at any size and nesting depth, never a panic. The reference encoder writes known fields in ascending number, packs repeated scalars, omits defaults, appends unknown bytes last. Per run: exact bytes of implementation = model = reference; violations are decided by the property's own fixpoint test (bytes == deterministic re-marshal of their parse by protobuf-go) on map-free types. The theorems are about the Gallina model: that the model is the code is checked on every run by evaluating the extracted model and the implementation built from the working tree on the same generated inputs (checked-in types and freshly generated ones), that the emitted programs are the generator model's by T-pico, and that the reference specification means what protobuf means by comparing it with protobuf-go.",
+  "text": "Proved in Coq for all values/sizes: minimal varints for every uint64, canonical tags for every valid number, minimal length prefix for every payload length (all three patching branches), default omission; Theorem T_enc (Schema/TEnc.v): for every schema the generator model accepts and every well-typed value, Marshal of the generated program = ref_encode (the reference encoder written from the encoding document), at any size and nesting depth, never a panic. The reference encoder writes known fields in ascending number, packs repeated scalars, omits defaults, appends unknown bytes last; the order clause is a theorem of its own, C06_ascending_order (Schema/Order.v): Marshal's output tokenises into the known fields' records with ascending numbers followed by the captured unrecognized fields. Per run: exact bytes of implementation = model = reference; violations are decided by the property's own fixpoint test (bytes == deterministic re-marshal of their parse by protobuf-go) on map-free types. The theorems are about the Gallina model: that the model is the code is checked on every run by evaluating the extracted model and the implementation built from the working tree on the same generated inputs (checked-in types and freshly generated ones), that the emitted programs are the generator model's by T-pico, and that the reference specification means what protobuf means by comparing it with protobuf-go.",
   "note": "Trusted: Coq 8.16.1 kernel (vm_compute, no native_compute, no axioms: Print Assumptions recorded in evidence), extraction with ExtrOcamlBasic, the OCaml driver, the Go harness and generators, protobuf-go v1.31.0 as oracle. The tie between model and Go code is differential testing on the projection named in the level text, not proof.",
   "ref": "8 C06"
  },
